@@ -31,6 +31,7 @@ from mc.sem import sem as M
 from mc.sem.jet import Undefined, set_order
 
 PID = "C13"
+CONFIRM_CAP = 300
 G = {}  # state shared with forked workers
 XSEED = "4242"  # str hash seed of the foreign interpreter (the driver itself runs with PYTHONHASHSEED=0)
 
@@ -774,7 +775,20 @@ def part_a(run, recipes, forms, label):
         ta, tb = tabs[x // N], tabs[y // N]
         return build_any(recipes[x % N], ta[0], ta[1], ta[2]), build_any(recipes[y % N], tb[0], tb[1], tb[2])
 
+    confirmed = {}
+
     def confirm(x, y, want_prefix=None, deep=False):
+        # a broken tree can make (almost) every pair a violating one: after CONFIRM_CAP confirmed pairs of a family
+        # the remaining ones are only counted (the verdict is already decided)
+        if confirmed.get(want_prefix, 0) >= CONFIRM_CAP:
+            run.count("violating_pairs_not_rebuilt_after_cap")
+            return True
+        found = _confirm(x, y, want_prefix, deep)
+        if found:
+            confirmed[want_prefix] = confirmed.get(want_prefix, 0) + 1
+        return found
+
+    def _confirm(x, y, want_prefix=None, deep=False):
         found = False
         a, b = fresh_pair(x, y)
         for key, what in check_pair(a, b, ab, G["dom"], deep=deep):
